@@ -73,34 +73,63 @@ def run_and_validate(ctx, pid, bindir, scripts, tag, inv, small, max_conn=2, out
         e = json.loads(lines[i])
         ctx.violation("the real router panicked at %s (%s) while handling a %s step" % (e.get("at"), e.get("panic"), e.get("ev")),
                       {"script": script_of(lines[start:i + 1]), "panic": e.get("panic"), "at": e.get("at")})
+        return summ["scripts"], summ["events"]       # the state after a panic means nothing; the violation stands
     max_conn = scripts[0].get("cfg", {}).get("max_conn", max_conn)
     out_batch = scripts[0].get("cfg", {}).get("out_batch", out_batch)
     consts = dict(Nets=nets, MaxConn=max_conn, MaxInflight=3 if small else 100, MaxChan=4 if small else 200, MaxSched=2 if small else 100,
                   OutBatch=out_batch, CIDs='{"c1", "c2", "c3"}', SubQoS="{}", PubQoS="{}", PubRetain="{}", Subscribers="{}", Publishers="{}",
-                  Adversaries="{}", MaxPub=0, MaxSubOps=0, MaxCloses=100, EnUnsub="TRUE", EnPing="TRUE", EnDisconnect="TRUE", EnStale="TRUE", PubEmpty="{}", RFix=RFIX, Strategy='"%s"' % scripts[0].get("cfg", {}).get("strategy", "RoundRobin"))
+                  Adversaries="{}", MaxPub=0, MaxSubOps=0, MaxCloses=100, EnUnsub="TRUE", EnPing="TRUE", EnDisconnect="TRUE", EnStale="TRUE", PubEmpty="{}", RFix=RFIX,
+                  Strategy='"%s"' % scripts[0].get("cfg", {}).get("strategy", "RoundRobin"), Strict="TRUE")
     subst = dict(MatchRel="TMatch", Topics="TTopics", Filters="TFilters", SubFilters="TFilters", NetCid="TNetCid", NetClean="TClean", NetWill="TNoWill")
-    cfg = write(ctx, "MC_RouterTrace_" + tag, cfg_text(consts, subst,
-                "SPECIFICATION TraceSpec\nINVARIANTS %s\n%sCONSTRAINT Progress\nPOSTCONDITION TraceAccepted\nCHECK_DEADLOCK FALSE\n"
-                % (" ".join(inv), ("PROPERTIES %s\n" % " ".join(act)) if act else "")))
-    res = vlib.run_tlc_raw(ctx, "MC_RouterTrace", cfg=cfg, workers=1, timeout=2400, env={"TRACE": tp}, dfs=True, name="rtrace_" + tag, heap="12g")
+    tail = ("SPECIFICATION TraceSpec\nINVARIANTS %s\n%sCONSTRAINT Progress\nPOSTCONDITION TraceAccepted\nCHECK_DEADLOCK FALSE\n"
+            % (" ".join(inv), ("PROPERTIES %s\n" % " ".join(act)) if act else ""))
     import re
-    bad = None
-    if res.invariant_violated or res.property_violated:
-        m = re.findall(r"/\\ l = (\d+)", res.out)
-        which = res.invariant_violated[0] if res.invariant_violated else "action property " + " ".join(act)
-        bad = ("%s violated in a recorded execution of the real router" % which, int(m[-1]) - 1 if m else 0)
-    elif "TRACE-REJECTED" in res.out or "Postcondition" in res.out:
-        m = re.search(r'"TRACE-REJECTED at line",\s*(\d+)', res.out)
-        bad = ("recorded execution of the real router is not a behaviour of RouterSys.tla (first unexplained step)", int(m.group(1)) if m else 0)
-    elif not res.ok:
-        raise vlib.ToolError("router trace validation failed to run: %s" % (res.error,))
-    if bad and not summ["panics"]:
-        what, line = bad
+
+    def validate(path, strict, name):
+        c = dict(consts); c["Strict"] = "TRUE" if strict else "FALSE"
+        cfg = write(ctx, "MC_RouterTrace_" + name, cfg_text(c, subst, tail))
+        res = vlib.run_tlc_raw(ctx, "MC_RouterTrace", cfg=cfg, workers=1, timeout=2400, env={"TRACE": path}, dfs=True, name="rtrace_" + name, heap="12g")
+        if res.invariant_violated or res.property_violated:
+            m = re.findall(r"/\\ l = (\d+)", res.out)
+            which = res.invariant_violated[0] if res.invariant_violated else "action property " + " ".join(act)
+            return ("inv", which, int(m[-1]) - 1 if m else 0)
+        if "TRACE-REJECTED" in res.out or "Postcondition" in res.out:
+            m = re.search(r'"TRACE-REJECTED at line",\s*(\d+)', res.out)
+            return ("rejected", None, int(m.group(1)) if m else 0)
+        if not res.ok:
+            raise vlib.ToolError("router trace validation failed to run: %s" % (res.error,))
+        return None
+
+    def behaviour_at(line):
         line = min(max(line, 1), len(lines))
         start = max(j for j in range(line) if '"ev":"reset"' in lines[j])
+        nxt = [j for j in range(line, len(lines)) if '"ev":"reset"' in lines[j]]
+        return start, line, (nxt[0] if nxt else len(lines))
+
+    bad = validate(tp, True, tag)
+    if bad and not summ["panics"]:
+        kind, which, line = bad
+        start, line, end = behaviour_at(line)
         e = json.loads(lines[line - 1])
-        ctx.violation("%s: step %d of the behaviour: %s %s -> %s" % (what, line - start, e.get("ev"), e.get("n", ""), json.dumps(e.get("res"))[:200]),
-                      {"script": script_of(lines[start:line]), "small_constants": small})
+        where = "step %d of the behaviour: %s %s -> %s" % (line - start, e.get("ev"), e.get("n", ""), json.dumps(e.get("res"))[:200])
+        if kind == "inv":
+            ctx.violation("%s violated in a recorded execution of the real router: %s" % (which, where), {"script": script_of(lines[start:line]), "small_constants": small})
+        else:
+            # second stage: is what the links observed (in all recorded behaviours) explainable by the model at all?
+            obs = validate(tp, False, tag + "_obs")
+            if obs is None:
+                msg = ("the router's internal state differs from RouterSys.tla at %s, but everything the links observed in this behaviour is a behaviour of the model "
+                       "and the invariants hold on it: the exhaustive TLC results no longer speak about this code (update Router.tla), no property violation shown" % where)
+                print("DRIFT property=%s %s" % (pid, msg))
+                ctx.drift.append({"note": msg, "script": script_of(lines[start:line])})
+            else:
+                okind, owhich, oline = obs
+                ostart, oline, oend = behaviour_at(oline)
+                e2 = json.loads(lines[oline - 1])
+                what = ("%s violated" % owhich) if okind == "inv" else "what the links observed is not a behaviour of RouterSys.tla"
+                ctx.violation("recorded execution of the real router: %s at step %d of the behaviour: %s %s -> %s (the recorded router state first leaves the model at %s)"
+                              % (what, oline - ostart, e2.get("ev"), e2.get("n", ""), json.dumps(e2.get("res"))[:160], where),
+                              {"script": script_of(lines[ostart:oend]), "small_constants": small})
     return summ["scripts"], summ["events"]
 
 
@@ -355,7 +384,7 @@ def scenario_scripts(seed, count):
     for k in range(count):
         g = Gen(seed * 104729 + k, max_conn=3, out_batch=2)
         r = g.r
-        kind = k % 6
+        kind = k % 9
         g.connect("n1", "c1"); g.connect("n2", "c2")
         q1 = r.choice([0, 1, 2])
         if kind == 0:          # late wildcard
@@ -402,6 +431,52 @@ def scenario_scripts(seed, count):
             for _ in range(r.randint(2, 6)):
                 g.publish("n2", r.choice(topics[:2]), r.choice([0, 1]))
             g.subscribe("n1", "#", r.choice([1, 2]))
+        elif kind == 6:        # two subscribers parked on the same filter, one of them unsubscribes
+            g.connect("n3", "c3")
+            f = r.choice(["a/b", "a/+", "#"])
+            order = ["n1", "n3"] if r.random() < 0.5 else ["n3", "n1"]
+            for n in order:
+                g.subscribe(n, f, r.choice([0, 1])); g.idle(20)
+            if r.random() < 0.5:
+                g.publish("n2", "a/b", 0); g.idle(30)
+            leaver = r.choice(order)
+            g.unsubscribe(leaver, f); g.idle(20)
+            for _ in range(r.randint(1, 4)):
+                g.publish("n2", r.choice(["a/b", "a/b", "a/c"]), r.choice([0, 1]))
+            g.idle(30)
+            if r.random() < 0.4:
+                g.subscribe(leaver, f, r.choice([0, 1])); g.idle(10); g.publish("n2", "a/b", 0)
+        elif kind == 7:        # a persistent client goes away, another client gets its slot, the first one comes back
+            g.steps = []
+            g.connect("n1", "c1", clean=False); g.connect("n2", "c2")
+            g.subscribe("n1", "a/+", r.choice([0, 1])); g.idle(20)
+            if r.random() < 0.5:
+                g.push("n1", {"t": "disconnect", "id": 0, "msg": NOMSG, "fs": []}); g.idle(10)
+            g.steps.append({"op": "close", "n": "n1"}); g.idle(10)
+            g.connect("n3", "c3"); g.subscribe("n3", r.choice(["a/b", "#"]), r.choice([0, 1])); g.idle(20)
+            g.publish("n2", "a/b", r.choice([0, 1])); g.idle(20)
+            g.connect("n4", "c1", clean=r.random() < 0.3); g.idle(20)
+            for _ in range(r.randint(1, 3)):
+                g.publish("n2", "a/b", r.choice([0, 1]))
+            g.idle(30)
+            for n in ("n3", "n4"):
+                g.steps.append({"op": "drain", "n": n}); g.steps.append({"op": "react", "n": n, "max": 100})
+            g.publish("n3", "a/c", 1); g.idle(30)
+            for n in ("n3", "n4"):
+                g.steps.append({"op": "drain", "n": n}); g.steps.append({"op": "react", "n": n, "max": 100})
+        elif kind == 8:        # a connection with a will ends, then a will-less connection of the same client id ends
+            g.steps = []
+            wq = r.choice([0, 1])
+            g.connect("n1", "c1", will={"m": 901, "topic": ch("a/b"), "q": wq, "retain": r.random() < 0.3}); g.connect("n2", "c2")
+            g.subscribe("n2", r.choice(["a/b", "a/+"]), r.choice([0, 1])); g.idle(20)
+            if r.random() < 0.3:
+                g.push("n1", {"t": "disconnect", "id": 0, "msg": NOMSG, "fs": []}); g.idle(10)
+            g.steps.append({"op": "close", "n": "n1"}); g.idle(10); g.steps.append({"op": "will", "n": "n1"}); g.idle(30)
+            g.steps.append({"op": "drain", "n": "n2"}); g.steps.append({"op": "react", "n": "n2", "max": 100})
+            g.connect("n3", "c1"); g.idle(10)
+            if r.random() < 0.5:
+                g.publish("n3", "a/b", 0); g.idle(10)
+            g.steps.append({"op": "close", "n": "n3"}); g.idle(10); g.steps.append({"op": "will", "n": "n3"}); g.idle(30)
         else:                  # re-subscription and resume
             g.steps = []
             g.connect("n1", "c1", clean=False); g.connect("n2", "c2")
@@ -420,7 +495,7 @@ def scenario_scripts(seed, count):
         # everybody drains and acknowledges until the broker is idle
         for _ in range(8):
             g.idle(60)
-            for n in ("n1", "n2", "n3"):
+            for n in ("n1", "n2", "n3", "n4"):
                 g.steps.append({"op": "drain", "n": n})
                 g.steps.append({"op": "react", "n": n, "max": r.choice([1, 3, 100])})
         g.idle(100)
